@@ -4,7 +4,25 @@
 // Injectivity of encode follows: encode(a) == encode(b) ==> a == decode(encode(a)) == decode(encode(b)) == b.
 //
 // The REAL `Serialize::serialize`, `Deserialize::deserialize` and `MemoryLocationVisitor::visit_str`
-// are executed, including std's integer formatting and parsing (nothing is stubbed).
+// are executed, including std's `format!`, integer formatting and integer parsing.
+//
+// Shape of every harness (a two-step proof of the round trip through an intermediate string):
+//      let w = wire(&m);                 // the wire form written out by hand in the harness (no std::fmt)
+//      assert!(encode(&m) == w);         // (1) the real serializer emits exactly w
+//      assert!(decode(&w) == Ok(m));     // (2) the real deserializer maps w back to m
+// (1) and (2) give decode(encode(m)) == Ok(m).  `wire` is NOT trusted: if it were wrong, (1) or (2) fails.
+// Feeding `encode`'s own output into `decode` inside CBMC is intractable here (the String that comes out
+// of `fmt::write` has a symbolic length/content after CBMC merged all `dyn`/fn-pointer candidates, and
+// `split('+')`/`parse` then unwind over it; > 600 s even for the constant StackOffset(0)).
+//
+// Three std functions that only build a panic MESSAGE are replaced by a plain panic (same behaviour:
+// they never return, and reaching them still fails the harness):
+//   * core::result::unwrap_failed                 (message of Result::unwrap/expect inside std::fmt)
+//   * <core::num::TryFromIntError as Debug>::fmt  (argument of such a message)
+//   * core::str::slice_error_fail                 (message of a failed str slice / split_at)
+// Without them the `{:?}` formatting code for those messages becomes a candidate of every formatting
+// fn-pointer call and drags `PadAdapter::write_str` (recursive through `dyn Write`) into the model; CBMC
+// then unwinds that recursion forever, even for constant inputs.
 #[cfg(kani)]
 mod verif_kani_memloc {
     use super::{MemoryLocation, MemoryLocationVisitor};
@@ -72,19 +90,82 @@ mod verif_kani_memloc {
         MemoryLocation::deserialize(StrDeserializer::<E>::new(s))
     }
 
-    /// THE obligation: decode(encode(m)) == Ok(m); any panic inside either side fails the harness.
+    /// The wire form, written out by hand: "so+N" / "so-N" (N = |offset| in decimal), "csr+C",
+    /// "csro+C+I" (I = offset as signed decimal, '-' only when negative).
+    fn wire(m: &MemoryLocation) -> String {
+        fn dec(out: &mut String, mut n: u64) {
+            let mut buf = [0u8; 10];
+            let mut k = 10;
+            loop {
+                k -= 1;
+                buf[k] = b'0' + (n % 10) as u8;
+                n /= 10;
+                if n == 0 { break; }
+            }
+            while k < 10 { out.push(buf[k] as char); k += 1; }
+        }
+        let mut out = String::new();
+        match m {
+            MemoryLocation::StackOffset(i) => {
+                out.push_str(if *i < 0 { "so-" } else { "so+" });
+                dec(&mut out, (*i as i64).unsigned_abs());
+            }
+            MemoryLocation::CsrRegister(c) => {
+                out.push_str("csr+");
+                dec(&mut out, c.value() as u64);
+            }
+            MemoryLocation::CsrRegisterValueOffset(c, i) => {
+                out.push_str("csro+");
+                dec(&mut out, c.value() as u64);
+                out.push('+');
+                if *i < 0 { out.push('-'); }
+                dec(&mut out, (*i as i64).unsigned_abs());
+            }
+        }
+        out
+    }
+
+    /// THE obligation: decode(encode(m)) == Ok(m) (via the intermediate string, see the file header);
+    /// any panic inside either side fails the harness.
     fn roundtrip(m: MemoryLocation) {
+        let w = wire(&m);
+        // (1) the real serializer emits exactly w
         let s = encode(&m);
-        // the visitor called directly (what a self-describing format such as YAML/JSON ends up calling) ...
-        match MemoryLocationVisitor.visit_str::<E>(&s) {
+        assert!(s == w, "serialize emits a different string than the documented wire form");
+        // (2) the real visitor (what any self-describing format ends up calling) maps w back to m ...
+        match MemoryLocationVisitor.visit_str::<E>(&w) {
             Ok(back) => assert!(back == m, "visit_str(encode(m)) is a different memory location"),
             Err(E) => panic!("visit_str rejects the emitted encoding"),
         }
-        // ... and through the public Deserialize impl
-        match decode(&s) {
+        // ... and so does the public Deserialize impl
+        match decode(&w) {
             Ok(back) => assert!(back == m, "decode(encode(m)) is a different memory location"),
             Err(E) => panic!("the emitted encoding cannot be loaded"),
         }
+    }
+
+    fn unwrap_failed_plain(_msg: &str, _e: &dyn core::fmt::Debug) -> ! {
+        panic!("Result::unwrap()/expect() on an Err value inside std")
+    }
+    fn no_debug_try_from_int(_x: &core::num::TryFromIntError, _f: &mut core::fmt::Formatter<'_>) -> core::fmt::Result {
+        panic!("Debug formatting of TryFromIntError reached")
+    }
+
+    fn slice_error_fail_plain(_s: &str, _begin: usize, _end: usize) -> ! {
+        panic!("str slice index out of range or not on a char boundary")
+    }
+
+    /// `h!(name, unwind, { body })`: a proof harness with the three panic-message stubs
+    macro_rules! h {
+        ($(#[$doc:meta])* $name:ident, $unwind:literal, $body:block) => {
+            $(#[$doc])*
+            #[kani::proof]
+            #[kani::unwind($unwind)]
+            #[kani::stub(core::result::unwrap_failed, unwrap_failed_plain)]
+            #[kani::stub(core::str::slice_error_fail, slice_error_fail_plain)]
+            #[kani::stub(<core::num::TryFromIntError as core::fmt::Debug>::fmt, no_debug_try_from_int)]
+            fn $name() $body
+        };
     }
 
     fn so(i: i32) -> MemoryLocation { MemoryLocation::StackOffset(i) }
@@ -92,68 +173,63 @@ mod verif_kani_memloc {
     fn csro(c: u32, i: i32) -> MemoryLocation { MemoryLocation::CsrRegisterValueOffset(CsrImm::new(c), i) }
 
     // ------------------------------------------------------------------ StackOffset
+    h!(
     /// bounded: offset symbolic in -9..=9
-    #[kani::proof]
-    #[kani::unwind(8)]
-    fn so_small() {
+    so_small, 8, {
         let i: i32 = kani::any();
         kani::assume(i >= -9 && i <= 9);
         kani::cover!(i < 0, "negative stack offset");
         kani::cover!(i == 0, "zero stack offset");
         kani::cover!(i > 0, "positive stack offset");
         roundtrip(so(i));
-    }
+    });
 
+    h!(
     /// bounded: offset symbolic in -128..=127 (two and three digit numbers, both signs)
-    #[kani::proof]
-    #[kani::unwind(10)]
-    fn so_byte() {
+    so_byte, 10, {
         let i: i8 = kani::any();
         kani::cover!(i <= -100, "three digits, negative");
         kani::cover!(i >= 100, "three digits, positive");
         kani::cover!(i > -100 && i <= -10, "two digits, negative");
         roundtrip(so(i as i32));
-    }
+    });
 
     // boundary values, concrete (bound = exactly this value)
-    #[kani::proof] #[kani::unwind(16)] fn so_min() { roundtrip(so(i32::MIN)); }
-    #[kani::proof] #[kani::unwind(16)] fn so_min_plus_1() { roundtrip(so(i32::MIN + 1)); }
-    #[kani::proof] #[kani::unwind(16)] fn so_minus_1() { roundtrip(so(-1)); }
-    #[kani::proof] #[kani::unwind(16)] fn so_zero() { roundtrip(so(0)); }
-    #[kani::proof] #[kani::unwind(16)] fn so_max() { roundtrip(so(i32::MAX)); }
+    h!(so_min, 24, { roundtrip(so(i32::MIN)); });
+    h!(so_min_plus_1, 24, { roundtrip(so(i32::MIN + 1)); });
+    h!(so_minus_1, 24, { roundtrip(so(-1)); });
+    h!(so_zero, 24, { roundtrip(so(0)); });
+    h!(so_max, 24, { roundtrip(so(i32::MAX)); });
 
     // ------------------------------------------------------------------ CsrRegister
+    h!(
     /// bounded: csr symbolic in 0..=9
-    #[kani::proof]
-    #[kani::unwind(8)]
-    fn csr_small() {
+    csr_small, 8, {
         let c: u32 = kani::any();
         kani::assume(c <= 9);
         kani::cover!(c == 0, "csr 0");
         kani::cover!(c == 9, "csr 9");
         roundtrip(csr(c));
-    }
+    });
 
+    h!(
     /// bounded: csr symbolic in 0..=255
-    #[kani::proof]
-    #[kani::unwind(10)]
-    fn csr_byte() {
+    csr_byte, 10, {
         let c: u8 = kani::any();
         kani::cover!(c >= 100, "three digits");
         kani::cover!(c >= 10 && c < 100, "two digits");
         roundtrip(csr(c as u32));
-    }
+    });
 
-    #[kani::proof] #[kani::unwind(16)] fn csr_zero() { roundtrip(csr(0)); }
-    /// 0xFFF is the largest architectural CSR number
-    #[kani::proof] #[kani::unwind(16)] fn csr_4095() { roundtrip(csr(4095)); }
-    #[kani::proof] #[kani::unwind(16)] fn csr_max() { roundtrip(csr(u32::MAX)); }
+    h!(csr_zero, 24, { roundtrip(csr(0)); });
+    // 0xFFF is the largest architectural CSR number
+    h!(csr_4095, 24, { roundtrip(csr(4095)); });
+    h!(csr_max, 24, { roundtrip(csr(u32::MAX)); });
 
     // ------------------------------------------------------------------ CsrRegisterValueOffset
+    h!(
     /// bounded: csr symbolic in 0..=9, offset symbolic in -9..=9
-    #[kani::proof]
-    #[kani::unwind(8)]
-    fn csro_small() {
+    csro_small, 8, {
         let c: u32 = kani::any();
         let i: i32 = kani::any();
         kani::assume(c <= 9);
@@ -162,26 +238,12 @@ mod verif_kani_memloc {
         kani::cover!(i > 0 && c > 0, "positive offset");
         kani::cover!(i == 0 && c == 0, "all zero");
         roundtrip(csro(c, i));
-    }
+    });
 
-    #[kani::proof] #[kani::unwind(16)] fn csro_zero_min() { roundtrip(csro(0, i32::MIN)); }
-    #[kani::proof] #[kani::unwind(16)] fn csro_max_min() { roundtrip(csro(u32::MAX, i32::MIN)); }
-    #[kani::proof] #[kani::unwind(16)] fn csro_max_max() { roundtrip(csro(u32::MAX, i32::MAX)); }
-    #[kani::proof] #[kani::unwind(16)] fn csro_4095_minus_1() { roundtrip(csro(4095, -1)); }
-    /// csr and offset must not be swapped: distinct one-digit payloads
-    #[kani::proof] #[kani::unwind(16)] fn csro_7_3() { roundtrip(csro(7, 3)); }
-
-    // ------------------------------------------------------------------ across variants
-    /// The three variants with equal payloads have pairwise different encodings and each reloads
-    /// as its own variant (bounded: payload symbolic in 0..=9).
-    #[kani::proof]
-    #[kani::unwind(8)]
-    fn variants_distinct_small() {
-        let c: u32 = kani::any();
-        kani::assume(c <= 9);
-        let (a, b, d) = (so(c as i32), csr(c), csro(c, c as i32));
-        let (ea, eb, ed) = (encode(&a), encode(&b), encode(&d));
-        assert!(ea != eb && ea != ed && eb != ed, "two different memory locations share an encoding");
-        kani::cover!(c == 5);
-    }
+    h!(csro_zero_min, 24, { roundtrip(csro(0, i32::MIN)); });
+    h!(csro_max_min, 24, { roundtrip(csro(u32::MAX, i32::MIN)); });
+    h!(csro_max_max, 24, { roundtrip(csro(u32::MAX, i32::MAX)); });
+    h!(csro_4095_minus_1, 24, { roundtrip(csro(4095, -1)); });
+    // csr and offset must not be swapped: distinct one-digit payloads
+    h!(csro_7_3, 24, { roundtrip(csro(7, 3)); });
 }
